@@ -69,6 +69,9 @@ Catalogue == {
   T("call_nested", "Lua51", "call", <<CallStmt(CallF(<<CallOf("g", <<A>>), CallOf("h", <<>>)>>))>>),
   T("binop", "Lua51", "expr", <<Local(<<"x">>, <<Bin("+", A, Bin("*", B, Cn))>>)>>),
   T("binop_par", "Lua51", "expr", <<Local(<<"x">>, <<Bin("*", Par(Bin("+", A, B)), Cn)>>)>>),
+  \* a unary operator in parentheses as the base of an exponent: the parentheses matter wherever a comment sits
+  T("pow_par_unary", "Lua51", "expr", <<Local(<<"x">>, <<Bin("^", Par(Un("-", A)), Two)>>)>>),
+  T("mul_pow_par", "Lua51", "expr", <<Local(<<"x">>, <<Bin("*", A, Bin("^", Par(Un("-", B)), Two))>>)>>),
   T("concat", "Lua51", "expr", <<Local(<<"x">>, <<Bin("..", A, Bin("..", B, Cn))>>)>>),
   T("unop", "Lua51", "expr", <<Local(<<"x">>, <<Un("not", A), Un("-", B), Un("#", Cn)>>)>>),
   T("par_call", "Lua51", "expr", <<Local(<<"x">>, <<Par(CallF(<<>>))>>)>>),
